@@ -84,6 +84,7 @@ type observed struct {
 	TLSHdr  bool         `json:"tls_hdr"`  // the peer received a stream header over TLS
 	SentTLS int          `json:"sent_tls"` // TLS-layer script items the peer sent
 	Proceed bool         `json:"proceed"`  // the peer answered the STARTTLS request with <proceed/>
+	Feats   []string     `json:"feats"`    // name spaces Session.Feature reports as advertised, after NewSession returned
 	Unexp   string       `json:"unexpected,omitempty"`
 	ErrText string       `json:"err,omitempty"`
 	Choices []string     `json:"-"`
@@ -391,8 +392,10 @@ func (p *peer) runTLS() {
 // ---------------------------------------------------------------- running one session
 
 const (
-	extraSpace = "urn:x:sm"
-	evilSpace  = "urn:x:pipelined" // advertised only by clear text pipelined behind <proceed/>
+	rosterSpace = "urn:xmpp:features:rosterver"
+	sm3Space    = "urn:xmpp:sm:3"
+	extraSpace  = "urn:x:sm"
+	evilSpace   = "urn:x:pipelined" // advertised only by clear text pipelined behind <proceed/>
 )
 
 // buildFeatures returns the configured features (real ones wrapped for
@@ -496,9 +499,15 @@ func execute(c *c2Case, domain string, stls *xmpp.StreamFeature) (observed, []nx
 	default:
 		o.Class = "ok"
 	}
+	o.Feats = []string{}
 	if sess != nil && done {
 		o.Bits = uint8(sess.State())
 		o.TLSUp = sess.ConnectionState().HandshakeComplete
+		for _, ns := range universe(c) {
+			if _, ok := sess.Feature(ns); ok {
+				o.Feats = append(o.Feats, ns)
+			}
+		}
 	}
 	a.Close()
 	select {
@@ -540,6 +549,28 @@ func execute(c *c2Case, domain string, stls *xmpp.StreamFeature) (observed, []nx
 		}
 	}
 	return o, specs
+}
+
+// universe lists the name spaces Session.Feature is asked about: every name
+// space a features list of the case advertises (clear text, pipelined or over
+// TLS) and those of all features the harness knows.
+func universe(c *c2Case) []string {
+	out := []string{nx.NSStartTLS, nx.NSSASL, nx.NSBind, extraSpace, evilSpace, rosterSpace, sm3Space, "urn:x:unknown"}
+	seen := map[string]bool{}
+	for _, ns := range out {
+		seen[ns] = true
+	}
+	for _, its := range [][]nx.Item{c.In, c.TLSIn} {
+		for _, it := range its {
+			for _, ch := range it.Children {
+				if !ch.Text && !seen[ch.Space] {
+					seen[ch.Space] = true
+					out = append(out, ch.Space)
+				}
+			}
+		}
+	}
+	return out
 }
 
 // ---------------------------------------------------------------- oracle
@@ -625,6 +656,29 @@ func oracle(c *c2Case, domain string, o *observed) [][2]string {
 			}
 		}
 	}
+	// ... nor kept as state of the protected stream: once the session has started
+	// a handshake, what it reports as advertised (Session.Feature) was advertised
+	// by a features list the peer sent over TLS
+	if len(o.SNI) > 0 {
+		sent := c.TLSIn
+		if o.SentTLS < len(sent) {
+			sent = sent[:o.SentTLS]
+		}
+		overTLS := map[string]bool{}
+		for _, it := range sent {
+			if it.Kind == "features" && !it.Sp {
+				for _, ch := range it.Children {
+					overTLS[ch.Space] = true
+				}
+			}
+		}
+		for _, ns := range o.Feats {
+			if !overTLS[ns] {
+				fail("cleartext-reinterpreted/feature-list-survives-tls", "Session.Feature reports "+ns+" for the protected stream; it was advertised only before the TLS layer was installed")
+				break
+			}
+		}
+	}
 	// no feature that needs a secured stream is negotiated before the handshake
 	for _, e := range o.CB {
 		if e.K == "neg" && e.Space != nx.NSStartTLS && e.St&nx.Secure == 0 {
@@ -685,6 +739,8 @@ var (
 	smErrChild = nx.Child{Space: extraSpace, Local: "sm", PErr: true}
 	evilChild  = nx.Child{Space: evilSpace, Local: "p"}
 	unkChild   = nx.Child{Space: "urn:x:unknown", Local: "u"}
+	rosterChld = nx.Child{Space: rosterSpace, Local: "ver"}
+	sm3Child   = nx.Child{Space: sm3Space, Local: "sm"}
 )
 
 func feat(cs ...nx.Child) nx.Item { return nx.Item{Kind: "features", Children: cs} }
@@ -699,6 +755,7 @@ func clearLists() []nx.Item {
 		feat(nx.Child{Space: nx.NSStartTLS, Local: "other"}), feat(tlsChild(false), nx.Child{Text: true}),
 		{Kind: "garbage"}, {Kind: "streamerr"}, {Kind: "elem", Space: "urn:x:unknown", Local: "u"}, {Kind: "features", Sp: true, Children: []nx.Child{tlsChild(true)}},
 		feat(smReqChild, bindChild), feat(tlsChild(false), smChild), feat(smErrChild, tlsChild(true)), feat(tlsChild(true), tlsChild(false)),
+		feat(tlsChild(true), rosterChld, sm3Child), feat(rosterChld, tlsChild(false), saslChild), feat(rosterChld, sm3Child),
 	}
 }
 
@@ -734,6 +791,7 @@ func tlsScripts() [][]nx.Item {
 		{hdr, feat(saslChild), hdr, feat()},
 		{hdr, feat(smChild, saslChild), hdr, feat(bindChild, smChild)},
 		{hdr, feat(smChild), hdr, feat(saslChild), hdr, feat(bindChild)},
+		{hdr, feat(saslChild, rosterChld), hdr, feat(bindChild, sm3Child)},
 		{{Kind: "header", Bad: true}},
 		{hdr, {Kind: "garbage"}},
 		{hdr, feat(tlsChild(true))},
@@ -770,7 +828,7 @@ func genCase(r *hx.Rand) *c2Case {
 	rp := replies()
 	var list nx.Item
 	if r.Chance(3, 5) {
-		list = cl[r.Intn(5)] // the usual advertisements
+		list = append(cl[:5:5], cl[len(cl)-3:]...)[r.Intn(8)] // the usual advertisements, with or without informational features
 	} else {
 		list = cl[r.Intn(len(cl))]
 	}
@@ -792,7 +850,7 @@ func genCase(r *hx.Rand) *c2Case {
 	}
 	ts := tlsScripts()
 	if r.Chance(1, 2) {
-		c.TLSIn = ts[r.Intn(6)]
+		c.TLSIn = ts[r.Intn(7)]
 	} else {
 		c.TLSIn = ts[r.Intn(len(ts))]
 	}
@@ -812,7 +870,13 @@ type runner struct {
 }
 
 func coqCase(c *c2Case, specs []nx.FeatSpec, domain string, o *observed) string {
-	var outs, chs, wire, cbs, sni, hs []string
+	var outs, chs, wire, cbs, sni, hs, univ, feats []string
+	for _, ns := range universe(c) {
+		univ = append(univ, nx.CoqStr(ns))
+	}
+	for _, ns := range o.Feats {
+		feats = append(feats, nx.CoqStr(ns))
+	}
 	for _, x := range o.Outs {
 		outs = append(outs, nx.CoqOutcome(x))
 	}
@@ -832,10 +896,10 @@ func coqCase(c *c2Case, specs []nx.FeatSpec, domain string, o *observed) string 
 		hs = append(hs, hx.CoqBool(b))
 	}
 	l := nx.CoqList
-	return fmt.Sprintf("mkC2 %s %s %s %s %s %s %s %s %s %s %s %s %s %s %s",
+	return fmt.Sprintf("mkC2 %s %s %s %s %s %s %s %s %s %s %s %s %s %s %s %s %s",
 		hx.CoqBool(c.Tee != 0), nx.CoqConfig(specs, c.hsOK(), domain), nx.CoqOptStr(c.TLSName), nx.CoqN(c.Bits),
 		nx.CoqItems(c.In), nx.CoqItems(c.TLSIn), l(outs), l(chs),
-		hx.CoqBool(o.Class == "ok"), nx.CoqN(o.Bits), l(wire), l(cbs), l(sni), l(hs), hx.CoqNat(o.SentTLS))
+		hx.CoqBool(o.Class == "ok"), nx.CoqN(o.Bits), l(wire), l(cbs), l(sni), l(hs), hx.CoqNat(o.SentTLS), l(univ), l(feats))
 }
 
 // one script, the four tee modes, optional further sessions with the same feature value
@@ -1042,6 +1106,8 @@ func corpus() []c2Case {
 		mk("header and empty list pipelined behind <proceed/>", "tsb", "ok", net, []nx.Item{hdr, feat(tlsChild(true)), proceed, hdr, feat()}, full),
 		mk("marker feature pipelined behind <proceed/>", "tsbe", "ok", net, []nx.Item{hdr, feat(tlsChild(true)), proceed, hdr, feat(evilChild)}, full),
 		mk("clear text instead of a TLS record", "tsb", "plaintext", net, []nx.Item{hdr, feat(tlsChild(true)), proceed, hdr, feat()}, full),
+		mk("informational features advertised in clear text only", "tsb", "ok", net, []nx.Item{hdr, feat(tlsChild(true), rosterChld, sm3Child), proceed}, []nx.Item{hdr, feat()}),
+		mk("informational features in clear text, others over TLS", "tsb", "ok", net, []nx.Item{hdr, feat(rosterChld, tlsChild(false)), proceed}, []nx.Item{hdr, feat(saslChild, sm3Child), hdr, feat(bindChild)}),
 		mk("happy path", "tsb", "ok", sp("tls.example.net"), []nx.Item{hdr, feat(tlsChild(true)), proceed}, full),
 		s2s,
 	}
